@@ -7,7 +7,8 @@ from kfv.rules import dist_rules as D
 
 NEEDS_TYPES = False
 TECHNIQUE = ('index-set algebra of pack/unpack (same generator, same (rows, cols), offset 0; mirror through a transpose with offset <= 1), '
-             'layout-independence lint, dominance of the shape validation over packing and communication, rank-space lint; configuration forwarding of symmetry_aware')
+             'layout-independence lint, dominance of the shape validation over packing and communication, rank-space lint; configuration forwarding of symmetry_aware; '
+             'case evaluation of the completion callbacks over (average, symmetric)')
 EXPLANATION = (
     'get_triu and fill_triu are reduced to index-set terms under the torch semantics of triu_indices (A3): the pack gathers '
     'T[I0, I1] with I = triu_indices(rows(T), cols(T), 0); the unpack scatters the packed vector to the same enumeration of a '
